@@ -20,6 +20,47 @@ class HarnessError(Exception):
     """The harness itself is wrong / the case is malformed (never a violation)."""
 
 
+class CaseTimeout(BaseException):
+    """A single case ran for longer than CASE_TIMEOUT seconds (tested code hangs)."""
+
+
+# a case normally takes milliseconds; these limits only exist so that a hang or a
+# memory blow-up in (mutated) code under test ends as a reported failure instead of
+# wedging the checker.  A first timeout is re-tried once with CONFIRM_TIMEOUT.
+CASE_TIMEOUT = float(os.environ.get('VERIF_CASE_TIMEOUT', '30'))
+CONFIRM_TIMEOUT = float(os.environ.get('VERIF_CONFIRM_TIMEOUT', '90'))
+MEM_LIMIT = int(float(os.environ.get('VERIF_MEM_GB', '6')) * (1 << 30))
+
+
+def limit_memory():
+    try:
+        import resource
+        soft, hard = resource.getrlimit(resource.RLIMIT_AS)
+        if hard == resource.RLIM_INFINITY or hard > MEM_LIMIT:
+            resource.setrlimit(resource.RLIMIT_AS, (MEM_LIMIT, hard))
+    except Exception:
+        pass
+
+
+def _on_alarm(signum, frame):
+    raise CaseTimeout()
+
+
+def with_timeout(f, seconds):
+    """Run f() under a SIGALRM-based wall clock limit (main thread only)."""
+    import signal
+    import threading
+    if threading.current_thread() is not threading.main_thread():
+        return f()
+    old = signal.signal(signal.SIGALRM, _on_alarm)
+    signal.setitimer(signal.ITIMER_REAL, seconds)
+    try:
+        return f()
+    finally:
+        signal.setitimer(signal.ITIMER_REAL, 0)
+        signal.signal(signal.SIGALRM, old)
+
+
 class Outcome:
     __slots__ = ('ok', 'nontrivial', 'labels', 'kind', 'detail', 'excluded')
 
@@ -115,13 +156,12 @@ def run_case(sub, case):
 
 
 def fails_like(sub, case, kind):
+    from .main import safe_run
     try:
-        out = sub.run(case)
-    except HarnessError:
-        return False
-    except RecursionError:
-        return False
+        out, herr = safe_run(sub, case)
     except Exception:
+        return False
+    if herr is not None or out is None:
         return False
     return (not out.ok) and out.kind == kind
 
